@@ -167,8 +167,8 @@ def run(ctx, tag, U, vars_, pre, bbs, op, posts, split=(0, 0), conf_every=1, det
                 ctx.harness_error(f"E2 stand-in does not conform to real networkx in {tag}", dict(detail or {}, pre_state=spec_of(sg.real_state(sg.materialize(vars_, m, mkbbs()))), symbolic=[a, spec_of(sym_state)], real=[b, spec_of(real_state)]))
 
     st = explore(pre, body, split_bits=split[0], split_index=split[1])
-    if stats.get("sample") and stats.get("best", 0) >= 6:
-        ctx.sample(stats["sample"], limit=2)
+    if stats.get("sample") and stats.get("best", 0) >= 6 and not any(isinstance(x, dict) and "decisions_on_this_path" in x for x in ctx.r["samples"]):
+        ctx.r["samples"].insert(0, stats["sample"])
     ctx.count("decisions", st["decisions"])
     ctx.count("feasibility_checks", st["checks"])
     ctx.count("aborted_paths", st["aborted"])
